@@ -28,9 +28,9 @@ PROPS = {"C09": dict(
         "Zrnt.Proofs.C09.score_changes_exact",
         "Zrnt.Proofs.C09.inv_best",
         "Zrnt.Proofs.C09.head_eq_ghost_partial",
-        "Zrnt.Proofs.C09.head_eq_ghost_false",
+        "Zrnt.Proofs.C09.Old.head_eq_ghost_false",
     ],
-    modes=[dict(name="fc09", stateful=True, max_shrinks=4,
+    modes=[dict(name="fc09", stateful=True, max_shrinks=3,
                 nontrivial=_nontrivial(("head", "findhead", "att", "block", "slot", "justify", "pin")))],
     level="proof",
     trusted_base=FC_TB,
